@@ -453,7 +453,10 @@ class Checker(CommandMixin):
                     self.v("C12", "subscribed-mailbox-survives", ev,
                            "sweep deleted mailbox %r while connections %r are subscribed" % (k, self.subs.get(k)))
                 elif (act is not None and act > now - EXPIRY + EPS and act <= now + EPS
-                      and (rec.get("act_t") is None or ev.t - rec["act_t"] < EXPIRY - EPS)):
+                      and (rec.get("act_t") is None or ev.t - rec["act_t"] < EXPIRY - EPS)
+                      and not self.backward_jump):
+                    # (after a backward step of the wall clock a sweep may legitimately have
+                    # re-stamped a subscribed mailbox with an *earlier* time)
                     # (recent on the wall clock the server stamps with *and* in elapsed time:
                     # a wall-clock jump must not turn a legitimate expiry into an alarm)
                     self.v("C12", "active-mailbox-survives", ev,
